@@ -113,18 +113,34 @@ class Simulator:
         if self.use_jacobian:
             try:
                 _jac = to_symbolic_model(self.model).jacobian()
+                _par_names = self.model.get_parameter_names()
                 _jac_fn = lambdify(
                     (
                         "time",
                         self.model.get_variable_names(),
-                        self.model.get_parameter_names(),
+                        _par_names,
                     ),
                     _jac,
                 )
+
+                def _current_parameter_values() -> list[float]:
+                    # The values in force now, parameters may change between runs
+                    args = self.model.get_args(
+                        include_time=False,
+                        include_variables=False,
+                        include_parameters=True,
+                        include_derived_parameters=False,
+                        include_derived_variables=False,
+                        include_reactions=False,
+                        include_surrogate_variables=False,
+                        include_surrogate_fluxes=False,
+                    )
+                    return [float(args[k]) for k in _par_names]
+
                 jac_fn = lambda t, x: _jac_fn(  # noqa: E731
                     t,
                     x,
-                    self.model._parameters.values(),  # noqa: SLF001
+                    _current_parameter_values(),
                 )
 
             except Exception as e:  # noqa: BLE001
